@@ -273,9 +273,9 @@ Proof.
 Qed.
 
 (* refutation: an element holding the group separator 0x1D comes back as two elements *)
-Lemma ll_string_refuted :
-  exists l o, l <> [] /\ journey false (GLeafList (map GString l)) o <> Ok (GLeafList (map GString l)).
-Proof. exists [[97; 29; 98]%N], None. split; [discriminate | vm_compute; discriminate]. Qed.
+Lemma ll_string_refuted : forall fx,
+  exists l o, l <> [] /\ journey fx (GLeafList (map GString l)) o <> Ok (GLeafList (map GString l)).
+Proof. intros fx. exists [[97; 29; 98]%N], None. split; [discriminate | destruct fx; vm_compute; discriminate]. Qed.
 
 (* ------------------------------------------------------------ bytes leaf-lists *)
 Lemma hll_bytes fx l t0 : l <> [] -> handle_leaf_list fx (map GBytes l) t0 = Ok (new_ll_bytes l).
@@ -357,6 +357,6 @@ Proof.
 Qed.
 
 (* refutation: an empty element after the first one is lost (and the elements after it are merged) *)
-Lemma ll_bytes_refuted :
-  exists l o, l <> [] /\ journey false (GLeafList (map GBytes l)) o <> Ok (GLeafList (map GBytes l)).
-Proof. exists [[1]; []; [2]; [3]]%N, None. split; [discriminate | vm_compute; discriminate]. Qed.
+Lemma ll_bytes_refuted : forall fx,
+  exists l o, l <> [] /\ journey fx (GLeafList (map GBytes l)) o <> Ok (GLeafList (map GBytes l)).
+Proof. intros fx. exists [[1]; []; [2]; [3]]%N, None. split; [discriminate | destruct fx; vm_compute; discriminate]. Qed.
